@@ -551,4 +551,196 @@ theorem c20_crMulSmall_spec [CommRing S] (h : BoltCc) {half g : Nat} (ok : c20_C
       rw [e, Nat.add_mod_right, Nat.mod_eq_of_lt (by omega)]
     rw [e1, e2, c20_rho_incol_sub hh hug hhi, e3]
 
+/-! ### decoding by diagonals -/
+
+/-- `decode_outputs` (cc_cr) over all blocks, for ANY family of polynomial sets whose reads succeed (value `V i j sh u`) and carry
+    `F row col` at the read position of every entry inside the matrix -/
+theorem c20_boltCrDecode_spec (z : S) (h : BoltCc) (hm : 0 < h.m) (Y : List (List (Array S))) (F : Nat → Nat → S)
+    (V : Nat → Nat → Nat → Nat → S) (hlen : Y.length = ceilDiv h.mAll h.m * ceilDiv h.nAll h.m)
+    (hY : ∀ i j, i < ceilDiv h.mAll h.m → j < ceilDiv h.nAll h.m → ∃ part, getRow Y (i * ceilDiv h.nAll h.m + j) = .ok part ∧
+      ∀ sh u, sh < h.m → u < h.m → ∃ poly, getSlots part (sh / h.gsc) = .ok poly ∧
+        readAt poly (sh % h.gsc * h.gap + u) = .ok (V i j sh u) ∧
+        (i * h.m + u < h.mAll → j * h.m + (u + sh) % h.m < h.nAll → V i j sh u = F (i * h.m + u) (j * h.m + (u + sh) % h.m))) :
+    ∃ out, boltCrDecodeOutputs h z Y = .ok out ∧ out.size = h.mAll * h.nAll ∧
+      ∀ row col, row < h.mAll → col < h.nAll → out.getD (row * h.nAll + col) z = F row col := by
+  let ws : List (List (Nat × S)) := (pairs (ceilDiv h.mAll h.m) (ceilDiv h.nAll h.m)).map fun ij =>
+    ((((pairs h.m h.m).map fun su => (su.2, (su.2 + su.1) % h.m, V ij.1 ij.2 su.1 su.2)).filter
+      fun e => ij.1 * h.m + e.1 < h.mAll ∧ ij.2 * h.m + e.2.1 < h.nAll).map
+      fun e => ((ij.1 * h.m + e.1) * h.nAll + (ij.2 * h.m + e.2.1), e.2.2))
+  have hmem : ∀ pv, pv ∈ ws.flatten ↔ ∃ i j sh u, (i < ceilDiv h.mAll h.m ∧ j < ceilDiv h.nAll h.m) ∧ (sh < h.m ∧ u < h.m) ∧
+      (i * h.m + u < h.mAll ∧ j * h.m + (u + sh) % h.m < h.nAll) ∧
+      pv = ((i * h.m + u) * h.nAll + (j * h.m + (u + sh) % h.m), V i j sh u) := by
+    intro pv
+    simp only [ws, List.mem_flatten, List.mem_map]
+    constructor
+    · rintro ⟨l, ⟨ij, hij, rfl⟩, hpv⟩
+      obtain ⟨e, he, rfl⟩ := List.mem_map.mp hpv
+      rw [List.mem_filter, decide_eq_true_eq] at he
+      obtain ⟨su, hsu, rfl⟩ := List.mem_map.mp he.1
+      exact ⟨ij.1, ij.2, su.1, su.2, c20_mem_pairs.mp hij, c20_mem_pairs.mp hsu, he.2, rfl⟩
+    · rintro ⟨i, j, sh, u, hij, hsu, hin, rfl⟩
+      refine ⟨_, ⟨(i, j), c20_mem_pairs.mpr hij, rfl⟩, List.mem_map.mpr ⟨(u, (u + sh) % h.m, V i j sh u), ?_, rfl⟩⟩
+      rw [List.mem_filter, decide_eq_true_eq]
+      exact ⟨List.mem_map.mpr ⟨(sh, u), c20_mem_pairs.mpr hsu, rfl⟩, hin⟩
+  have hrun : boltCrDecodeOutputs h z Y = scatterA z (h.mAll * h.nAll) (h.mAll * h.nAll) ws.flatten := by
+    unfold boltCrDecodeOutputs
+    simp only [hlen, ne_eq, not_true_eq_false, if_false]
+    rw [c20_mapM_eq _ (fun ij => ((((pairs h.m h.m).map fun su => (su.2, (su.2 + su.1) % h.m, V ij.1 ij.2 su.1 su.2)).filter
+      fun e => ij.1 * h.m + e.1 < h.mAll ∧ ij.2 * h.m + e.2.1 < h.nAll).map
+      fun e => ((ij.1 * h.m + e.1) * h.nAll + (ij.2 * h.m + e.2.1), e.2.2)))]
+    · rfl
+    intro ij hij
+    obtain ⟨hi, hj⟩ := c20_mem_pairs.mp hij
+    obtain ⟨part, hpart, hread⟩ := hY ij.1 ij.2 hi hj
+    rw [hpart]
+    have hbind : ∀ {α β : Type} (a : α) (f : α → R β), (Except.ok a >>= f) = f a := fun _ _ => rfl
+    simp only [hbind]
+    rw [c20_mapM_eq _ (fun su => (su.2, (su.2 + su.1) % h.m, V ij.1 ij.2 su.1 su.2))]
+    · rfl
+    intro su hsu
+    obtain ⟨h1, h2⟩ := c20_mem_pairs.mp hsu
+    obtain ⟨poly, hpoly, hr, _⟩ := hread su.1 su.2 h1 h2
+    rw [hpoly]
+    simp only [hbind]
+    rw [hr]
+    rfl
+  have hb : ∀ pv ∈ ws.flatten, pv.1 < h.mAll * h.nAll ∧ pv.1 < (Array.replicate (h.mAll * h.nAll) z).size := by
+    intro pv hpv
+    obtain ⟨i, j, sh, u, _, _, hin, rfl⟩ := (hmem pv).mp hpv
+    have h4 := c20_succ_mul_le (ib := h.nAll) hin.1
+    simp only [Array.size_replicate]
+    constructor <;> omega
+  obtain ⟨out, hout, hsz, _, hval⟩ := c20_scatter_fold (h.mAll * h.nAll) ws.flatten (Array.replicate (h.mAll * h.nAll) z) hb
+  refine ⟨out, by rw [hrun]; exact hout, by simpa using hsz, ?_⟩
+  intro row col hrow hcol
+  have er : row / h.m * h.m + row % h.m = row := Nat.div_add_mod' row h.m
+  have ec : col / h.m * h.m + col % h.m = col := Nat.div_add_mod' col h.m
+  have hmr := Nat.mod_lt row hm
+  have hmc := Nat.mod_lt col hm
+  -- the shift of the diagonal through (row, col)
+  have hsh : (row % h.m + (col % h.m + h.m - row % h.m) % h.m) % h.m = col % h.m := by
+    rcases Nat.lt_or_ge (col % h.m) (row % h.m) with hlt | hge
+    · rw [Nat.mod_eq_of_lt (by omega : col % h.m + h.m - row % h.m < h.m)]
+      have e : row % h.m + (col % h.m + h.m - row % h.m) = col % h.m + h.m := by omega
+      rw [e, Nat.add_mod_right, Nat.mod_mod]
+    · have e : col % h.m + h.m - row % h.m = (col % h.m - row % h.m) + h.m := by omega
+      rw [e, Nat.add_mod_right, Nat.mod_eq_of_lt (by omega : col % h.m - row % h.m < h.m)]
+      have e2 : row % h.m + (col % h.m - row % h.m) = col % h.m := by omega
+      rw [e2, Nat.mod_mod]
+  have hin : (row * h.nAll + col, F row col) ∈ ws.flatten := by
+    rw [hmem]
+    refine ⟨row / h.m, col / h.m, (col % h.m + h.m - row % h.m) % h.m, row % h.m,
+      ⟨c20_div_lt_ceilDiv hm hrow, c20_div_lt_ceilDiv hm hcol⟩, ⟨Nat.mod_lt _ hm, hmr⟩, ?_, ?_⟩
+    · rw [hsh, er, ec]; exact ⟨hrow, hcol⟩
+    · obtain ⟨part, _, hread⟩ := hY (row / h.m) (col / h.m) (c20_div_lt_ceilDiv hm hrow) (c20_div_lt_ceilDiv hm hcol)
+      obtain ⟨_, _, _, hV⟩ := hread ((col % h.m + h.m - row % h.m) % h.m) (row % h.m) (Nat.mod_lt _ hm) hmr
+      rw [hV (by rw [er]; exact hrow) (by rw [hsh, ec]; exact hcol), hsh, er, ec]
+  have huniq : ∀ pv ∈ ws.flatten, pv.1 = row * h.nAll + col → pv.2 = F row col := by
+    intro pv hpv heq
+    obtain ⟨i, j, sh, u, ⟨hi, hj⟩, ⟨hs, hu⟩, hin', rfl⟩ := (hmem pv).mp hpv
+    obtain ⟨e2, e1⟩ := c20_digit_unique (W := h.nAll) hcol hin'.2 heq
+    obtain ⟨part, _, hread⟩ := hY i j hi hj
+    obtain ⟨_, _, _, hV⟩ := hread sh u hs hu
+    show V i j sh u = F row col
+    rw [hV hin'.1 hin'.2, e1, e2]
+  have := hval (row * h.nAll + col) (F row col) hin huniq
+  rw [Array.getD_eq_getD_getElem?, this]; rfl
+
+/-! ### end to end -/
+
+theorem c20_boltCrEncodeInputs_ok (z : S) (h : BoltCc) {half g : Nat} (ok : c20_CcOK h half g) (x : Nat → S) :
+    boltCrEncodeInputs h z x (h.mAll * h.r)
+      = .ok ((List.range (ceilDiv h.mAll h.m)).map fun p => (List.range (ceilDiv h.r h.gsc)).map fun i =>
+          c20_colMajorArr z h.N h.gap h.gsc h.m h.mAll h.r x p i) := by
+  unfold boltCrEncodeInputs
+  rw [if_neg (by simp)]
+  exact c20_boltRowParts_ok z h.N h.gap h.gsc h.m h.mAll h.r x ok.hN ok.hmg
+
+/-- **`MatmulBoltCcCr`, whole pipeline** (any commutative ring, every helper satisfying `c20_CcOK`, `r > 0`): encode the LHS column-major
+    and the RHS row-major, run `multiply` on the slot vectors for every block pair (rotate the RHS, multiply, `sum_inplace`, mask
+    the diagonal, accumulate) and decode by diagonals: the result is `x · w`, row major `m × n` -/
+theorem c20_boltCr_whole [CommRing S] (h : BoltCc) {half g : Nat} (ok : c20_CcOK h half g) (hr : 0 < h.r) (x w : Nat → S) :
+    ∃ X W Y out, boltCrEncodeInputs h 0 x (h.mAll * h.r) = .ok X ∧ boltCrEncodeWeights h 0 w (h.r * h.nAll) = .ok W ∧
+      boltCrMultiply h (· + ·) (· * ·) 0 X W = .ok Y ∧ boltCrDecodeOutputs h 0 Y = .ok out ∧ out.size = h.mAll * h.nAll ∧
+      ∀ i j, i < h.mAll → j < h.nAll → out.getD (i * h.nAll + j) 0 = ∑ k ∈ range h.r, x (i * h.r + k) * w (k * h.nAll + j) := by
+  have hgs := ok.gsc_pos
+  have hic : 0 < ceilDiv h.r h.gsc := c20_ceilDiv_pos hr hgs
+  have hbind : ∀ {α β : Type} (a : α) (f : α → R β), (Except.ok a >>= f) = f a := fun _ _ => rfl
+  let Xr : Nat → List (Array S) := fun p => (List.range (ceilDiv h.r h.gsc)).map fun i =>
+    c20_colMajorArr 0 h.N h.gap h.gsc h.m h.mAll h.r x p i
+  let Wr : Nat → List (Array S) := fun q => (List.range (ceilDiv h.r h.gsc)).map fun i => c20_crW 0 h w q i
+  have hmul : boltCrMultiply h (· + ·) (· * ·) 0 ((List.range (ceilDiv h.mAll h.m)).map Xr) ((List.range (ceilDiv h.nAll h.m)).map Wr)
+      = .ok ((pairs (ceilDiv h.mAll h.m) (ceilDiv h.nAll h.m)).map fun ij =>
+          c20_val [] (boltCrMulSmall h (· + ·) (· * ·) 0 (Xr ij.1) (Wr ij.2))) := by
+    unfold boltCrMultiply
+    simp only [List.length_map, List.length_range, ne_eq, not_true_eq_false, or_self, if_false]
+    apply c20_mapM_eq
+    intro ij hij
+    obtain ⟨hi, hj⟩ := c20_mem_pairs.mp hij
+    rw [c20_getRow_map _ _ _ hi, c20_getRow_map _ _ _ hj]
+    simp only [hbind]
+    obtain ⟨Yq, hYq, _⟩ := c20_crMulSmall_spec h ok (ceilDiv h.r h.gsc) hic
+      (fun i => c20_colMajorArr 0 h.N h.gap h.gsc h.m h.mAll h.r x ij.1 i) (fun i => c20_crW 0 h w ij.2 i)
+    exact c20_val_ok [] hYq
+  obtain ⟨out, hout, hosz, hoval⟩ := c20_boltCrDecode_spec (0 : S) h ok.hm0
+    ((pairs (ceilDiv h.mAll h.m) (ceilDiv h.nAll h.m)).map fun ij =>
+      c20_val [] (boltCrMulSmall h (· + ·) (· * ·) 0 (Xr ij.1) (Wr ij.2)))
+    (fun row col => ∑ k ∈ range h.r, x (row * h.r + k) * w (k * h.nAll + col))
+    (fun p q sh u => ∑ c ∈ range h.gsc, ∑ i ∈ range (ceilDiv h.r h.gsc),
+      (c20_crW 0 h w q i).getD (c * h.gap + (u + sh) % h.m) 0
+        * (c20_colMajorArr 0 h.N h.gap h.gsc h.m h.mAll h.r x p i).getD (c * h.gap + u) 0)
+    (by rw [List.length_map, c20_pairs_eq, List.length_map, List.length_range])
+    (by
+      intro p q hp hq
+      obtain ⟨Yq, hYq, _, hv⟩ := c20_crMulSmall_spec h ok (ceilDiv h.r h.gsc) hic
+        (fun i => c20_colMajorArr 0 h.N h.gap h.gsc h.m h.mAll h.r x p i) (fun i => c20_crW 0 h w q i)
+      have eY : c20_val [] (boltCrMulSmall h (· + ·) (· * ·) 0 (Xr p) (Wr q)) = Yq := by
+        show c20_val [] (boltCrMulSmall h (· + ·) (· * ·) 0 ((List.range _).map _) ((List.range _).map _)) = Yq
+        rw [hYq]; rfl
+      refine ⟨Yq, by unfold getRow; rw [c20_pairs_map_getElem? _ _ _ _ _ hp hq, eY], ?_⟩
+      intro sh u hsh hu
+      obtain ⟨v, hvg, hvs, hvv⟩ := hv sh u hsh hu
+      have hug : u < h.gap := by have := ok.hmg; omega
+      have hlt : sh % h.gsc * h.gap + u < v.size := by
+        rw [hvs, ok.hN]; have := c20_succ_mul_le (ib := h.gap) (Nat.mod_lt sh hgs); omega
+      refine ⟨v, by unfold getSlots; rw [hvg], by rw [c20_readAt_getD 0 v hlt, hvv], ?_⟩
+      intro hrow hcol
+      have hjg : (u + sh) % h.m < h.gap := by have := Nat.mod_lt (u + sh) ok.hm0; have := ok.hmg; omega
+      have hjm : (u + sh) % h.m < h.m := Nat.mod_lt _ ok.hm0
+      let G : Nat → S := fun k => if k < h.r then w (k * h.nAll + (q * h.m + (u + sh) % h.m)) * x ((p * h.m + u) * h.r + k) else 0
+      have hterm : ∀ c, c < h.gsc → ∀ i,
+          (c20_crW 0 h w q i).getD (c * h.gap + (u + sh) % h.m) 0
+            * (c20_colMajorArr 0 h.N h.gap h.gsc h.m h.mAll h.r x p i).getD (c * h.gap + u) 0 = G (i * h.gsc + c) := by
+        intro c hc i
+        rw [(c20_crW_get 0 h ok w q i hc hjg).2, (c20_colMajorArr_get 0 h.N h.gap h.gsc h.m h.mAll h.r x ok.hN ok.hmg p i hc hug).2]
+        show _ = if _ < h.r then _ else 0
+        by_cases hk : i * h.gsc + c < h.r
+        · rw [if_pos ⟨hk, by omega⟩, if_pos ⟨by omega, hk⟩, if_pos hk]
+        · rw [if_neg (fun hc' => hk hc'.1), if_neg hk, zero_mul]
+      rw [Finset.sum_congr rfl (fun c hc => Finset.sum_congr rfl (fun i _ => hterm c (Finset.mem_range.mp hc) i)), Finset.sum_comm,
+        c20_sum_range_mul G]
+      have hsub : range h.r ⊆ range (ceilDiv h.r h.gsc * h.gsc) := by
+        intro k hk
+        have := c20_le_ceilDiv_mul h.r h.gsc hgs
+        exact Finset.mem_range.mpr (lt_of_lt_of_le (Finset.mem_range.mp hk) this)
+      rw [← Finset.sum_subset hsub (fun k _ hk => by
+        show (if k < h.r then _ else 0) = 0
+        rw [if_neg (fun hlt => hk (Finset.mem_range.mpr hlt))])]
+      apply Finset.sum_congr rfl
+      intro k hk
+      show (if k < h.r then _ else 0) = _
+      rw [if_pos (Finset.mem_range.mp hk), mul_comm])
+  exact ⟨_, _, _, out, c20_boltCrEncodeInputs_ok 0 h ok x, c20_boltCrEncodeWeights_ok 0 h ok w, hmul, hout, hosz, hoval⟩
+
+/-- **... for every helper `MatmulBoltCcCr::new` accepts** (`N` a power of two in the `usize` range) -/
+theorem c20_boltCr_new [CommRing S] {m r n N : Nat} {h : BoltCc} (hnew : BoltCc.newCr m r n N = .ok h) (hpow : ∃ e, N = 2^e)
+    (hN64 : N < 2^64) (x w : Nat → S) :
+    ∃ X W Y out, boltCrEncodeInputs h 0 x (m * r) = .ok X ∧ boltCrEncodeWeights h 0 w (r * n) = .ok W ∧
+      boltCrMultiply h (· + ·) (· * ·) 0 X W = .ok Y ∧ boltCrDecodeOutputs h 0 Y = .ok out ∧ out.size = m * n ∧
+      ∀ i j, i < m → j < n → out.getD (i * n + j) 0 = ∑ k ∈ range r, x (i * r + k) * w (k * n + j) := by
+  obtain ⟨_, hm, hr, hn, hr0, half, g, ok⟩ := c20_boltCrNew_ok hnew hpow hN64
+  have := c20_boltCr_whole h ok (by rw [hr]; exact hr0) x w
+  rw [hm, hr, hn] at this
+  exact this
+
 end HC
